@@ -222,9 +222,9 @@ def run(ctx, fr, model_available=True, cases=None):
 
 
 def search(ctx, fr, model_available=True):
-    class C2: tier = 'thorough'; seed = ctx.seed + 100
+    rnd = random.Random(ctx.seed * 23 + 1017)
     fr2 = type(fr)()
-    run(C2, fr2, model_available=False)
+    run(ctx, fr2, model_available=False, cases=[gen_case(rnd) for _ in range(700)])
     fr.violations += fr2.violations; fr.evaluations += fr2.evaluations
 
 
